@@ -277,11 +277,16 @@ func Generate(r *sim.Rng, prop, tier string, idx int) *sim.Case {
 		}
 	}
 	// loader plan
+	goexit := r.Chance(1, 6) || (prop == "C11" && r.Chance(1, 3)) // this run has create functions that end their goroutine
 	for _, k := range keys {
 		for att := 1; att <= 6; att++ {
 			if r.Chance(1, 7) {
-				// some creations fail by panicking (the caller recovers)
-				c.Faults = append(c.Faults, sim.Fault{Seam: "loader", Kind: sim.Pick(r, "fail", "fail", "cpanic"), Node: k, Ord: int64(att)})
+				// some creations fail by panicking (the caller recovers) or by ending their goroutine
+				kind := sim.Pick(r, "fail", "fail", "cpanic")
+				if goexit && mode == "seq" && kind == "cpanic" && r.Chance(1, 2) {
+					kind = "cgoexit"
+				}
+				c.Faults = append(c.Faults, sim.Fault{Seam: "loader", Kind: kind, Node: k, Ord: int64(att)})
 			}
 			if c.Knobs["flavor"] == 2 && r.Chance(1, 4) {
 				// a slow creation: the item may be past its expiry by the time it is handed out
@@ -408,11 +413,17 @@ func genConc(r *sim.Rng, c *sim.Case, keys []string) {
 		}
 		c.Tasks = append(c.Tasks, task)
 	}
+	goexit := r.Chance(1, 6) || (c.Prop == "C11" && r.Chance(1, 3)) // this run has create functions that end their goroutine
 	for _, k := range keys {
 		for att := 1; att <= 8; att++ {
 			if r.Chance(1, 6) {
-				// some creations fail by panicking: their waiters must be released all the same
-				c.Faults = append(c.Faults, sim.Fault{Seam: "loader", Kind: sim.Pick(r, "fail", "fail", "cpanic"), Node: k, Ord: int64(att)})
+				// some creations fail by panicking or by ending their goroutine: their waiters must be
+				// released all the same
+				kind := sim.Pick(r, "fail", "fail", "cpanic")
+				if goexit && kind == "cpanic" && r.Chance(1, 2) {
+					kind = "cgoexit"
+				}
+				c.Faults = append(c.Faults, sim.Fault{Seam: "loader", Kind: kind, Node: k, Ord: int64(att)})
 			}
 			if r.Chance(1, 5) {
 				c.Faults = append(c.Faults, sim.Fault{Seam: "loader", Kind: "sleep", Node: k, Ord: int64(att), D: int64(sim.Pick(r, time.Microsecond, time.Millisecond))})
